@@ -103,12 +103,14 @@ func runC09(c *Ctx) {
 	c.Rule("O9.4", "the ammo's request is passed on unchanged: between ammo.Request() and Client.Do the gun writes only URL.Scheme, URL.Host and Host (plus the body re-buffering idiom and trace context); the value handed to Do derives from ammo.Request()")
 	c.Rule("O9.5", "transport wiring: every http.Transport / net.Dialer field set in NewTransport / NewDialer is fed from the config field of the same name")
 	c.Rule("O9.6", "one client per instance: the client constructor is called in NewBaseGun's body; registered gun constructors build the gun inside the returned factory closure; Bind replaces the client only on a non-nil shared pool")
+	c.Rule("O9.7", "a raw entry's body stays its own: the request returned by http.ReadRequest reads its body lazily from the reader it was given, so that reader is created for this call (bufio.NewReader / NewReaderSize over the entry's bytes) and used for nothing else - not taken from a pool, a field or a package variable, not Reset or put away afterwards; and BuildRequest of a raw entry parses the entry's bytes on every call instead of handing out a stored request (Request.Clone shares the Body)")
 	c09Precedence(c)
 	c09Enrich(c)
 	c09Target(c)
 	c09Unchanged(c)
 	c09Wiring(c)
 	c09Client(c)
+	c09RawBody(c)
 }
 
 func c09Precedence(c *Ctx) {
@@ -711,4 +713,72 @@ func storeExact(in ssa.Instruction, typeName, field string) (ssa.Value, bool) {
 		return nil, false
 	}
 	return st.Val, true
+}
+
+
+// c09RawBody decides O9.7.
+func c09RawBody(c *Ctx) {
+	P := c.P
+	n := 0
+	for _, g := range P.PandoraFuncs() {
+		if !IsProdFile(P.File(g.Pos())) {
+			continue
+		}
+		EachInstr(g, func(in ssa.Instruction) {
+			cl, ok := in.(*ssa.Call)
+			if !ok || !MatchCC(&cl.Call, Spec{"net/http", "", "ReadRequest"}) {
+				return
+			}
+			n++
+			rd, isCall := Strip(cl.Call.Args[0]).(*ssa.Call)
+			fresh := isCall && MatchCC(&rd.Call, Spec{"bufio", "", "NewReader"}, Spec{"bufio", "", "NewReaderSize"})
+			private := fresh
+			if fresh && rd.Referrers() != nil {
+				for _, r := range *rd.Referrers() {
+					if _, isDbg := r.(*ssa.DebugRef); isDbg || r == ssa.Instruction(cl) {
+						continue
+					}
+					private = false
+				}
+			}
+			c.Check(fresh && private, "O9.7", fk(g)+":request-reader-is-private", cl.Pos(),
+				fmt.Sprintf("the reader given to http.ReadRequest must be made for this call and used for nothing else (made here: %v, no other use: %v): the returned request's Body keeps reading from it", fresh, private))
+		})
+	}
+	c.Floor("O9.7", "http.ReadRequest call sites", n, 1)
+	freshRequestRule(c, "O9.7", "RawAmmo")
+}
+
+
+// freshRequestRule: BuildRequest of the decoded-ammo type builds its request in the call (http.NewRequest / http.ReadRequest,
+// directly or in a helper), it does not hand out a request kept in the entry (nor a Clone of one: Clone shares the Body).
+func freshRequestRule(c *Ctx, id, typ string) {
+	P := c.P
+	build := P.Func("components/providers/http/decoders/ammo", typ, "BuildRequest")
+	if build == nil {
+		c.Anchor(id, "decoders/ammo.(*"+typ+").BuildRequest")
+		return
+	}
+	n := 0
+	EachInstr(build, func(in ssa.Instruction) {
+		ret, ok := in.(*ssa.Return)
+		if !ok || len(ret.Results) == 0 || IsNilConst(ret.Results[0]) {
+			return
+		}
+		n++
+		okParsed := DerivesOnly(ret.Results[0], false, func(v ssa.Value) bool {
+			cl, _ := CallOfValue(v)
+			if cl == nil || cl.Parent() != build {
+				return false
+			}
+			makes := []Spec{{"net/http", "", "ReadRequest"}, {"net/http", "", "NewRequest"}, {"net/http", "", "NewRequestWithContext"}}
+			if MatchCC(&cl.Call, makes...) {
+				return true
+			}
+			sc := cl.Call.StaticCallee()
+			return sc != nil && len(Calls(sc, makes...)) > 0
+		})
+		c.Check(okParsed, id, fk(build)+":request-built-on-every-call", ret.Pos(), "BuildRequest must return a request built from the entry's fields in this call (a stored request, or a Clone of one, shares its Body with the earlier deliveries of a preloaded entry)")
+	})
+	c.Floor(id, typ+".BuildRequest success returns", n, 1)
 }
